@@ -79,3 +79,21 @@ Theorem C04_refuted_before_repair_resolver_destruction_discards :
   snd (do_uop v now (URslvDestroy r) w) = [KDestroy (tid_rslv r)].
 Proof. intros v now r w D. unfold do_uop. rewrite D. reflexivity. Qed.
 Print Assumptions C04_refuted_before_repair_resolver_destruction_discards.
+
+(* udp async_wait(wait_write): an outstanding deferred wait is completed exactly once, with
+   operation_aborted, by cancel / close / a new wait, and its slot is empty afterwards *)
+Theorem C04_udp_wait_write_is_aborted_exactly_once :
+  forall v s w h, d3_udp_wait_write v = true -> u_wait_send_h (get_udp w s) = Some h ->
+  exists w', udp_abort_send v s w = (w', [KPost (TUser h [EC_ABORTED]); KCancel (tid_usend s)]) /\
+             u_wait_send_h (get_udp w' s) = None.
+Proof.
+  intros v s w h D H. unfold udp_abort_send. rewrite H, D. eexists. split; [reflexivity|].
+  unfold get_udp, set_udp. cbn. rewrite mget_mset_eq. reflexivity.
+Qed.
+Print Assumptions C04_udp_wait_write_is_aborted_exactly_once.
+
+Theorem C04_refuted_before_repair_udp_wait_write_abort :
+  forall v s w h, d3_udp_wait_write v = false -> u_wait_send_h (get_udp w s) = Some h ->
+  udp_abort_send v s w = (w, [KLog (TAG_FUEL, [22])]).
+Proof. intros v s w h D H. unfold udp_abort_send. rewrite H, D. reflexivity. Qed.
+Print Assumptions C04_refuted_before_repair_udp_wait_write_abort.
